@@ -130,16 +130,45 @@ SCHED_EXEMPT = {'myth_sched_loop': 'a scheduler context never migrates between w
                 'myth_worker_start_ex_body': 'runs on the worker\'s own OS thread (contains the inlined scheduler loop)'}
 
 
-def rule3_env(ctx, fl):
-    ctx.doc('C12.3', 'stale-value dataflow: in every public entry point (callees inlined) no value of type '
+def user_callback(f, c):
+    """indirect call of application code (start function, once routine, TLS destructor, decision callback):
+    it may block or yield, i.e. switch; function pointers loaded from library globals (steal function,
+    real_* symbols) are library code and do not"""
+    if 'callee_ref' not in c.d or c.asm is not None:
+        return False
+    srcs = f.sources(c.d['callee_ref'])
+    if not srcs:
+        return False
+    for k in srcs:
+        ins = f.insts.get(k) if not k.startswith('{') else None
+        if ins is None:
+            if k.startswith('{'):
+                return False
+            continue  # parameter
+        if ins.op == 'load' and f.ap(ins.ops[0]).fields:
+            continue  # function pointer kept in a struct field (entry_func, destructor table)
+        return False
+    return True
+
+
+def rule3_env(ctx, fl, rule='C12.3', only=None, units=None):
+    ctx.doc(rule, 'stale-value dataflow: in every public entry point (callees inlined) no value of type '
             'myth_running_env* (or pointer derived from one) computed before a swap-type context switch, or before a '
             'call to a function that may switch, is used after it; the env must be re-obtained')
-    units = [(NATIVE, None), ('myth_worker.c', None), ('myth_init.c', None), ('myth_sched.c', None), ('myth_sync.c', None)]
+    units = units or [(NATIVE, None), ('myth_worker.c', None), ('myth_init.c', None), ('myth_sched.c', None), ('myth_sync.c', None)]
     total_sites = 0
     for file, _ in units:
         raw = ctx.ssa(file, fl)
+        taken = set()
+        for f_ in raw.functions.values():
+            for ins in f_.order:
+                for a in list(ins.d.get('args', [])) + list(ins.d.get('ops', [])):
+                    if isinstance(a, dict) and 'fn' in a:
+                        taken.add(a['fn'])
         roots = [n for n, f in raw.functions.items() if not f.internal] + \
-                [n for n, f in raw.functions.items() if 'noinline' in f.attrs and f.internal]
+                [n for n, f in raw.functions.items() if 'noinline' in f.attrs and f.internal] + \
+                [n for n in sorted(taken) if n in raw.functions and raw.functions[n].internal and
+                 'noinline' not in raw.functions[n].attrs]
         if not roots:
             continue
         v = ctx.view(file, roots=roots, stops=(), flavour=fl)
@@ -163,28 +192,45 @@ def rule3_env(ctx, fl):
             f = v.fn(n)
             if f is None:
                 continue
-            events = [s.ins for s in switch_sites(f) if s.is_swap] + [c for c in f.calls() if c.callee in may]
+            events = [s.ins for s in switch_sites(f) if s.is_swap] + [c for c in f.calls() if c.callee in may] + \
+                     [c for c in f.calls() if user_callback(f, c)]
             if not events:
+                continue
+            if only is not None and n not in only:
                 continue
             ctx.fn_analysed.add(n)
             total_sites += len(events)
             if n in SCHED_EXEMPT:
-                ctx.ob('C12.3', '%s: exempt (scheduler)' % n, True, 'exempt: ' + SCHED_EXEMPT[n], loc=f.loc)
+                ctx.ob(rule, '%s: exempt (scheduler)' % n, True, 'exempt: ' + SCHED_EXEMPT[n], loc=f.loc)
                 continue
 
-            def tracked(x):
-                ty = x.get('ty') if isinstance(x, dict) else x.ty
-                return ty == ENV_TY
+            def tracked(x, f=f):
+                # pointers that denote *the executing worker's* env: the inline getter &g_envs[g_worker_rank],
+                # getter calls, th->env loads and env parameters.  &g_envs[victim] names a fixed worker and
+                # does not go stale by migrating.
+                if isinstance(x, dict):
+                    return x.get('ty') == ENV_TY
+                if x.ty != ENV_TY:
+                    return False
+                if x.op == 'load' and isinstance(x.ops[0], dict) and x.ops[0].get('g') == 'g_envs':
+                    return False  # base of the env array, not a particular worker
+                if x.op in ('call', 'load'):
+                    return True
+                if x.op == 'getelementptr':
+                    from .c02 import rank_index
+                    path = x.d['path']
+                    return len(path) == 1 and 'p' in path[0] and rank_index(f, path[0]['p'])
+                return False
             sa = StaleAnalysis(f, tracked, events)
             uses = [(i, r) for i, r in sa.stale_uses]
-            ctx.ob('C12.3', '%s: env re-obtained after switching' % n, not uses,
+            ctx.ob(rule, '%s: env re-obtained after switching' % n, not uses,
                    'no worker-env pointer obtained before a context switch is used after it (the thread may have '
                    'migrated; using the old env corrupts another worker\'s unsynchronised free lists / run queue)',
                    loc=(uses[0][0].loc if uses else f.loc),
                    detail='' if not uses else 'stale %s used at %s' % (describe(f, uses[0][1]), [u[0].loc for u in uses[:6]]))
-    if total_sites < 10:
+    if total_sites < (10 if only is None else 1):
         raise AnalysisBroken('only %d switch/may-switch sites found by C12.3' % total_sites)
-    ctx.floor('C12.3', 20)
+    ctx.floor(rule, 20 if only is None else max(1, len(only) - 3))
 
 
 def rule4_affine(ctx, v):
